@@ -485,10 +485,11 @@ func vwDeliveredTo(tr *vwTrace, node int, n *vwNode) bool {
 //
 //	0: one segment, 3 ASes, against construction direction (up / core), reply in construction direction
 //	1: one segment, 3 ASes, in construction direction (down / core)
-//	2: up segment (2 ASes) + down segment (2 ASes), cross-over in the middle AS (core AS or shortcut)
+//	2: up segment (2 ASes) + down segment (3 ASes), cross-over in the second AS (core AS or shortcut)
 //	3: up (2) + core (2, against construction direction) + down (2)
-//	4: up (3) + down (3): 5 ASes
-//	5: up (2) + core (3, in construction direction) + down (2): 5 ASes
+//	4: up (3) + down (2)
+//	5: up (3) + core (2, in construction direction) + down (2): 5 ASes
+//	6: up (2) + down (2)
 func vwShape(k int, core bool) []vwSegShape {
 	switch k {
 	case 0:
@@ -496,13 +497,15 @@ func vwShape(k int, core bool) []vwSegShape {
 	case 1:
 		return []vwSegShape{{cons: true, core: core, n: 3}}
 	case 2:
-		return []vwSegShape{{cons: false, n: 2}, {cons: true, n: 2}}
+		return []vwSegShape{{cons: false, n: 2}, {cons: true, n: 3}}
 	case 3:
 		return []vwSegShape{{cons: false, n: 2}, {cons: false, core: true, n: 2}, {cons: true, n: 2}}
 	case 4:
-		return []vwSegShape{{cons: false, n: 3}, {cons: true, n: 3}}
+		return []vwSegShape{{cons: false, n: 3}, {cons: true, n: 2}}
 	case 5:
-		return []vwSegShape{{cons: false, n: 2}, {cons: true, core: true, n: 3}, {cons: true, n: 2}}
+		return []vwSegShape{{cons: false, n: 3}, {cons: true, core: true, n: 2}, {cons: true, n: 2}}
+	case 6:
+		return []vwSegShape{{cons: false, n: 2}, {cons: true, n: 2}}
 	}
 	panic("unknown shape")
 }
